@@ -797,6 +797,10 @@ impl Database {
         Response::Ok {}
     }
 
+    /// Called by the storage right after it wrote `value` (the copy it took when the snapshot
+    /// started) for `key`. Clients keep writing while a snapshot runs: when the key was written or
+    /// removed again since the copy was taken, that newer state stays as it is (and stays to be
+    /// persisted by the next snapshot); only where the key now lives on disk is recorded.
     pub fn set_value_as_ok(
         &self,
         key: &String,
@@ -805,15 +809,44 @@ impl Database {
         key_disk_addr: u64,
         opp_id: u64,
     ) {
-        self.set_value_version(
-            key,
-            &value.value,
-            value.version,
-            ValueStatus::Ok,
-            value_disk_addr,
-            key_disk_addr,
-            opp_id,
-        );
+        #[cfg(feature = "verif")]
+        crate::verif::point("db.map:set_value_version");
+        let mut db = self.map.write().unwrap();
+        match db.get_mut(key) {
+            Some(current)
+                if current.version == value.version
+                    && current.value == value.value
+                    && current.state == value.state =>
+            {
+                current.state = ValueStatus::Ok;
+                current.value_disk_addr = value_disk_addr;
+                current.key_disk_addr = key_disk_addr;
+                current.opp_id = opp_id;
+            }
+            Some(current) => {
+                // Written again meanwhile: it is on disk now, so it is an update, not a new key
+                current.value_disk_addr = value_disk_addr;
+                current.key_disk_addr = key_disk_addr;
+                if current.state == ValueStatus::New {
+                    current.state = ValueStatus::Updated;
+                }
+            }
+            None => {
+                // A key that was not on disk yet is dropped from memory by a remove; the snapshot
+                // has just put it on disk, so the remove has to be remembered for the next one
+                db.insert(
+                    key.clone(),
+                    Value {
+                        value: String::from("<Empty>"),
+                        version: value.version.saturating_add(1),
+                        state: ValueStatus::Deleted,
+                        value_disk_addr,
+                        key_disk_addr,
+                        opp_id,
+                    },
+                );
+            }
+        }
     }
 
     /// apply the change to the database
